@@ -52,6 +52,8 @@ func BlockProposerSlashingsType(spec *common.Spec) ListTypeDef {
 type ProposerSlashings []ProposerSlashing
 
 func (a *ProposerSlashings) Deserialize(spec *common.Spec, dr *codec.DecodingReader) error {
+	// decode into a recycled object: drop what it holds (dr.List appends)
+	*a = (*a)[:0]
 	return dr.List(func() codec.Deserializable {
 		i := len(*a)
 		*a = append(*a, ProposerSlashing{})
